@@ -12,10 +12,10 @@ vars == <<f, ph>>
 Forms == {"grpc", "grpcweb", "connect_stream"}
 Targets == {"connect", "grpc", "grpcweb"}
 Init == ph = "pick" /\ f = [form |-> "grpc", target |-> "grpc", codec |-> "proto", tcodec |-> "proto", comp |-> "", tcomp |-> "",
-                            hdcomp |-> "", rounds |-> 1, readbuf |-> 0, split |-> FALSE, writer |-> "", carry |-> FALSE]
+                            hdcomp |-> "", rounds |-> 1, readbuf |-> 0, split |-> FALSE, writer |-> "", carry |-> FALSE, method |-> "Bidi"]
 Pick == /\ ph = "pick"
         /\ \E form \in Forms, tg \in Targets, c \in {"proto", "json"}, tc \in {"proto", "json"}, z \in {"", "gzip"}, tz \in {"", "gzip"},
-              hz \in {"", "gzip"}, r \in RoundCounts, rb \in {0, 3}, sp \in BOOLEAN, w \in Writers, cy \in BOOLEAN :
+              hz \in {"", "gzip"}, r \in RoundCounts, rb \in {0, 3}, sp \in BOOLEAN, w \in Writers, cy \in BOOLEAN, m \in {"Bidi", "CStream"} :
              /\ (hz = "gzip" => z = "gzip")           \* the handler may only use a compression the client accepts
              /\ (rb = 3 => sp)                        \* small read buffers together with split writes
              \* how the client connection's ResponseWriter offers flushing: itself (""), a buffering middleware
@@ -23,8 +23,11 @@ Pick == /\ ph = "pick"
              /\ (w # "" => (rb = 0 /\ ~sp /\ hz = ""))
              \* carry: the handler's Write of reply k ends inside the envelope of reply k+1 (a relaying handler)
              /\ (cy => (rb = 0 /\ ~sp /\ w = "" /\ r > 1))
+             \* CStream: a client-streaming method whose handler answers (its one reply) after the first request message,
+             \* and whose client sends the rest only after it has seen that reply
+             /\ (m = "CStream" => (rb = 0 /\ ~sp /\ w = "" /\ ~cy /\ r > 1))
              /\ f' = [form |-> form, target |-> tg, codec |-> c, tcodec |-> tc, comp |-> z, tcomp |-> tz, hdcomp |-> hz,
-                      rounds |-> r, readbuf |-> rb, split |-> sp, writer |-> w, carry |-> cy]
+                      rounds |-> r, readbuf |-> rb, split |-> sp, writer |-> w, carry |-> cy, method |-> m]
         /\ ph' = "done"
 Done == ph = "done" /\ UNCHANGED vars
 Next == Pick \/ Done
